@@ -333,6 +333,13 @@ impl UserRx {
         (write_half, read_half)
     }
 
+    /// The connection advertises a zero window as soon as less than one segment of its *current*
+    /// segment size is free. flush() must ask the reader for a wake-up at least that early,
+    /// otherwise nobody tells the connection when the window re-opens.
+    pub fn set_max_incoming_payload(&mut self, max_incoming_payload: NonZeroUsize) {
+        self.max_incoming_payload = max_incoming_payload;
+    }
+
     pub fn is_reader_dropped(&self) -> bool {
         self.shared.locked.lock().reader_dropped
     }
